@@ -5,7 +5,7 @@ impl Rng {
     pub fn next(&mut self) -> u64 { let mut x = self.0; x ^= x << 13; x ^= x >> 7; x ^= x << 17; self.0 = x; x }
     pub fn below(&mut self, n: usize) -> usize { (self.next() % n as u64) as usize }
 }
-const ATOMS: &[&str] = &["a", "foo", "nil", "t", "#t", "#f", "#nil", "12", "-7", "1.5", "1e3", "#xff", "\"s\"", "\"a\\n\\x41;b\"", "\"\u{3bb}\"", "#\\a", "#\\space", "#\\x41", ":k", "k:", "#:k", "\u{3bb}x", "+", "-", "...", "a.b", "?a", "#u8(1 2)", "#()", "()", "|", "1+", "#\\backspace", "#\\\u{3bb}", "-1a", "+.5", "1e999", "\"\\x3bb;\""];
+const ATOMS: &[&str] = &["a", "foo", "nil", "t", "#t", "#f", "#nil", "12", "-7", "1.5", "1e3", "#xff", "\"s\"", "\"a\\n\\x41;b\"", "\"\u{3bb}\"", "#\\a", "#\\space", "#\\x41", ":k", "k:", "#:k", "\u{3bb}x", "+", "-", "...", "a.b", "?a", "#u8(1 2)", "#()", "()", "|", "1+", "#\\backspace", "#\\\u{3bb}", "-1a", "+.5", "1e999", ".\u{3bb}", ".a", "( )", "..", "\"\\x3bb;\""];
 const TRIVIA: &[&str] = &[" ", " ", " ", "\n", "\t", "\r\n", " ; c\n", "\x0c", "  "];
 fn datum(r: &mut Rng, depth: usize, out: &mut String) {
     let k = if depth == 0 { 0 } else { r.below(10) };
